@@ -23,6 +23,7 @@ package render
 
 import (
 	"fmt"
+	"math"
 	"sync"
 
 	"github.com/deadsy/sdfx/sdf"
@@ -60,8 +61,21 @@ func write3MF(wg *sync.WaitGroup, path string) (chan<- []*sdf.Triangle3, error) 
 	model.Resources.Objects = append(model.Resources.Objects, obj)
 	model.Build.Items = append(model.Build.Items, &go3mf.Item{ObjectID: obj.ID})
 
-	// use the mesh builder to de-dup the vertices
-	mb := go3mf.NewMeshBuilder(&mesh)
+	// De-dup the vertices: vertices in the same 1e-6 cell share an index.
+	// (The go3mf mesh builder does the same with int32 cell coordinates,
+	// which overflow beyond +/-2147 and then merge unrelated vertices.)
+	index := make(map[[3]float64]uint32)
+	addVertex := func(p go3mf.Point3D) uint32 {
+		const cell = 1e-6
+		k := [3]float64{math.Floor(float64(p.X()) / cell), math.Floor(float64(p.Y()) / cell), math.Floor(float64(p.Z()) / cell)}
+		if i, ok := index[k]; ok {
+			return i
+		}
+		i := uint32(len(mesh.Vertices.Vertex))
+		mesh.Vertices.Vertex = append(mesh.Vertices.Vertex, p)
+		index[k] = i
+		return i
+	}
 
 	wg.Add(1)
 	go func() {
@@ -71,9 +85,9 @@ func write3MF(wg *sync.WaitGroup, path string) (chan<- []*sdf.Triangle3, error) 
 		for ts := range c {
 			simYield("render.write3MF", uint64(len(ts)))
 			for _, t := range ts {
-				v1 := mb.AddVertex(toPoint3D(t[0]))
-				v2 := mb.AddVertex(toPoint3D(t[1]))
-				v3 := mb.AddVertex(toPoint3D(t[2]))
+				v1 := addVertex(toPoint3D(t[0]))
+				v2 := addVertex(toPoint3D(t[1]))
+				v3 := addVertex(toPoint3D(t[2]))
 				mesh.Triangles.Triangle = append(mesh.Triangles.Triangle, go3mf.Triangle{V1: v1, V2: v2, V3: v3})
 			}
 		}
